@@ -33,28 +33,28 @@ type C18Op struct {
 }
 
 type C18Case struct {
-	Backend string   `json:"backend"` // memory | file | s3fake | gofakes3
+	Backend string `json:"backend"` // memory | file | s3fake | gofakes3
 	// Repoint (s3fake): the store is constructed for another bucket and prefix and its exported BucketName / Prefix
 	// fields are then set to the case's bucket and prefix: the configured bucket is what the fields say
-	Repoint bool `json:"repoint,omitempty"`
-	Bucket  string   `json:"bucket,omitempty"`
-	Prefix  string   `json:"prefix,omitempty"`
-	Names   []string `json:"names"`
+	Repoint  bool     `json:"repoint,omitempty"`
+	Bucket   string   `json:"bucket,omitempty"`
+	Prefix   string   `json:"prefix,omitempty"`
+	Names    []string `json:"names"`
 	Payloads []string `json:"payloads"` // base64
-	Ops     []C18Op  `json:"ops"`
+	Ops      []C18Op  `json:"ops"`
 }
 
 // fakeS3 is a recording S3Interface with error injection.
 type fakeS3 struct {
-	mu       sync.Mutex
-	objects  map[string][]byte // bucket + "\x00" + key
-	failPut  bool
+	mu                   sync.Mutex
+	objects              map[string][]byte // bucket + "\x00" + key
+	failPut              bool
 	failPutOnceAfterBody bool // the next PutObject reads the body, then fails (e.g. a lost response); later puts work
-	failGet  bool
-	failBody bool
-	shortBody bool // the body ends early with io.ErrUnexpectedEOF although ContentLength announced everything
-	puts     int
-	gets     int
+	failGet              bool
+	failBody             bool
+	shortBody            bool // the body ends early with io.ErrUnexpectedEOF although ContentLength announced everything
+	puts                 int
+	gets                 int
 }
 
 var errFakePut = errors.New("fake s3: injected PutObject failure")
